@@ -34,15 +34,29 @@ Theorem C14_assertion_signed_by_named_client :
 Proof. exact assertion_sound_symbolic. Qed.
 Print Assumptions C14_assertion_signed_by_named_client.
 
-(* the identity ClientJWTAuth returns, the JWTProfile grant hands to storage and
-   AuthorizePrivateJWTKey looks up is exactly the verified assertion's issuer *)
+(* the identity ClientJWTAuth returns, the JWTProfile grant hands to storage,
+   AuthorizePrivateJWTKey looks up (= LegacyServer router) and the Provider router
+   authenticates is exactly the verified assertion's issuer - a client_id parameter sent
+   along is not an input of any of these functions *)
 Theorem C14_assertion_identity :
   forall (verify : keyid -> sigdesc -> bool) v t cl now tok id,
   (client_jwt_auth verify v t now tok = Ok id \/ jwt_profile_grant verify v t now tok = Ok id
-   \/ authorize_private_jwt_key verify v t cl now tok = Ok id) ->
+   \/ authorize_private_jwt_key verify v t cl now tok = Ok id
+   \/ provider_router_auth verify v t cl now tok = Ok id) ->
   exists c, verify_assertion verify v t now tok = Ok c /\ id = c_iss c.
 Proof. exact assertion_identity. Qed.
 Print Assumptions C14_assertion_identity.
+
+(* One verifier / provider instance serving any sequence of requests (different
+   issuers of assertions, different request issuers of a dynamic-issuer provider):
+   step n is decided by step n alone - expected audience = the issuer of THAT request,
+   key set = the keys of THAT assertion's issuer; nothing is remembered. *)
+Theorem C14_sequence_independent :
+  forall (verify : keyid -> sigdesc -> bool) t pre s post,
+  nth (List.length pre) (verify_sequence verify t (pre ++ s :: post)) (Err EOther)
+  = verify_assertion verify (fst (fst s)) t (snd (fst s)) (snd s).
+Proof. exact sequence_independent. Qed.
+Print Assumptions C14_sequence_independent.
 
 (* AuthorizePrivateJWTKey additionally requires the client to be registered for private_key_jwt *)
 Theorem C14_client_auth :
